@@ -205,10 +205,8 @@ Definition with_votes {B} (dec : sx -> option B) (d : fdict) (f : list (B * Q) -
 Definition run_kind (k : ckind) (d : fdict) : cres :=
   match k with
   | KApprovalSimple sp => with_votes key_approval d (fun v =>
-      (* L76-77: Fraction(n_votes, len(bulk)) on an empty ballot is a ZeroDivisionError (known finding C13-approval-split-empty;
-         with fixes/C13-approval-split-empty.diff applied this test goes away and the empty ballot contributes nothing) *)
-      if sp && existsb (fun bw => match fst bw with [] => true | _ => false end) v then CErr E_ZERODIV
-      else ok_f (dconv (img_approval_simple sp) v))
+      (* after the fix: commit for C13-approval-split-empty (`if self.split and bulk`) an empty ballot contributes nothing *)
+      ok_f (dconv (img_approval_simple sp) v))
   | KFirst => with_votes key_ranked d (fun v => ok_f (dconv img_first v))
   | KFirstN n => with_votes key_ranked d (fun v => match oconv (img_first_n n) v with Some o => ok_f o | None => CUnmod end)
   | KPresence => with_votes key_ranked d (fun v => ok_f (dconv img_presence v))
